@@ -3807,7 +3807,7 @@ static Token *function(Token *tok, Type *basety, VarAttr *attr) {
     // one - only if all its file-scope declarations say 'inline' and
     // none says 'extern' (C11 6.7.4p7). Any other declaration makes it
     // an external definition.
-    if (fn->static_by_inline && !attr->is_static &&
+    if (fn->static_by_inline && !attr->is_static && !scope->next &&
         (!attr->is_inline || attr->is_extern)) {
       fn->is_static = false;
       fn->static_by_inline = false;
